@@ -204,7 +204,7 @@ def rand_writer_ops(rng, sep=";", kv=":"):
             # write_list_element(name, description, longest_name): any column width, also one SMALLER than the name (bytes or chars)
             name = b"".join(rng.choice([b"a", b"b", b"-", "\u00e9".encode(), "\u0441".encode(), "\u20ac".encode()]) for _ in range(rng.randrange(0, 6)))
             hxe = lambda b: hx(b) if b else ""
-            ops.append("e" + kv + hxe(name) + "." + hxe(rand_out_text(rng, 4)) + ".%d" % rng.choice([0, 1, 2, 3, len(name.decode()), len(name), len(name) + 1, 9]))
+            ops.append("e" + kv + hxe(name) + "." + hxe(rand_out_text(rng, 4)) + ".%d" % rng.choice([0, 1, 2, 3, len(name.decode()), len(name), len(name) + 1, 9, 31, 33, 40, 64, 100, 300]))
         else:
             ops.append(kind + kv + hx(rand_out_text(rng)))
     return sep.join(ops) if ops else ("-" if sep == ";" else "")
